@@ -194,6 +194,45 @@ class A(Adapter):
             return ("termination", f"step_type {int(ts.step_type)} but the rules say done={done} (step {sc}/{nb})")
         return None
 
+    # ---- reach probes ---------------------------------------------------------------------------
+    def events(self, ps, action, s, ts, env, cfg):
+        grid = np.asarray(s.grid)
+        if ps is None:
+            ev = [f"reset_gen_{cfg.get('gen', 'unknown')}"]
+            if grid.shape[0] != grid.shape[1]:
+                ev.append("reset_nonsquare")
+            if not self.legal(s, env).any(axis=(1, 2, 3)).all():
+                ev.append("reset_block_without_legal_placement")
+            return ev
+        b, k, r, c = (int(v) for v in action)
+        pg = np.asarray(ps.grid)
+        placed = np.asarray(ps.placed_blocks).astype(bool)
+        piece = _rot(np.asarray(ps.blocks)[b], k)
+        overlap = bool(((pg[r:r + 3, c:c + 3] != 0) & (piece != 0)).any())
+        last = int(ts.step_type) == 2
+        covered = bool((grid != 0).all())
+        if placed[b] or overlap:
+            ev = ["illegal_action_ignored", "illegal_block_already_placed" if placed[b] else "illegal_overlap"]
+            if last:
+                ev.append("ended_at_step_limit_after_ignored_action")
+        else:
+            ev = ["block_placed"]
+            if k % 4 != 0 and not np.array_equal(piece, np.asarray(ps.blocks)[b]):
+                ev.append("rotated_placement")
+            if k % 4 != 0 and np.array_equal(piece, np.asarray(ps.blocks)[b]):
+                ev.append("rotation_of_symmetric_block")
+            if int(np.count_nonzero(piece)) == 9:
+                ev.append("full_3x3_block_placed")
+            if bool(np.asarray(s.placed_blocks).astype(bool).all()):
+                ev.append("all_blocks_placed")
+            if covered:
+                ev.append("board_completely_covered")
+        if last and not covered:
+            ev.append("ended_at_step_limit_grid_not_covered")
+        if not last and not self.legal(s, env).any():
+            ev.append("stuck_no_legal_placement_left")
+        return ev
+
     # ---- C12 -------------------------------------------------------------------------------------
     def observe(self, s, obs, env, cfg):
         for f_obs, f_state in (("grid", "grid"), ("blocks", "blocks"), ("action_mask", "action_mask")):
